@@ -224,6 +224,18 @@ Theorem C07_mono_check_sound : forall tol l, mono_check tol l = None ->
 Proof. exact mono_check_sound. Qed.
 Print Assumptions C07_mono_check_sound.
 
+(* the WHOLE comparator on an op-0 line (stats.InvCDF of a harness-defined piecewise distribution): an accepted
+   verdict (0 = ok, 1 = borderline) means the line parses into a well-formed cdf, every level satisfies
+   [level_spec] (Proofs/InvCDFCheck.v: NaN out of range, the end-point rule at 0 and 1, within tolerance of
+   the LEAST x with cdf x >= y or the matching infinity for 0 < y < 1) and the results are ordered like the levels *)
+Theorem C07_check_op0_sound : forall rest c tag pos diag,
+  check_C07 (7 :: 0 :: rest)%Z = verdict c tag pos diag -> (c = 0 \/ c = 1)%Z ->
+  exists pw bl bh items,
+    (do pw <- plist p_knot; do bl <- pQ; do bh <- pQ; do items <- plist p_item; pend (pw, bl, bh, items)) rest = Some ((pw, bl, bh, items), []) /\
+    pw_wf pw /\ Forall (level_spec pw bl bh) items /\ levels_ordered items.
+Proof. exact check_C07_op0_sound. Qed.
+Print Assumptions C07_check_op0_sound.
+
 Example C07_check_example :
   (* uniform on [0, 2]: level 1/4 answered by 1/2 is accepted, by 0.5000001 it is not; a point mass beyond the
      last probe must be answered by +Inf *)
